@@ -37,12 +37,14 @@ def exec_scripts(wd, scripts):
     return vlib.read_ndjson(out), spins
 
 
-def run(pid, tier, replay, prefixes, models, gens, level_rule, keyfn=None, extra_scripts=None, trace_spec="endpoint/EndpointTrace", keep=None, require_stats=(), negatives=()):
+def run(pid, tier, replay, prefixes, models, gens, level_rule, keyfn=None, extra_scripts=None, trace_spec="endpoint/EndpointTrace", keep=None, require_stats=(), negatives=(),
+        verdict=None, finish=True):
     """models: list of (module, cfg) checked with TLC (violation => failure 'model:...').
     gens: list of (module, cfg) whose SCRIPT lines are executed."""
     wd = vlib.workdir("ep-%s-%s" % (pid, tier))
     vlib.build_harness()
-    verdict = vlib.Verdict(pid, tier)
+    # (a check that has stages of its own passes its verdict and finishes it itself)
+    verdict = verdict or vlib.Verdict(pid, tier)
     states = trans = 0
     if not replay:
         for mod, cfg in models:
@@ -154,6 +156,8 @@ def run(pid, tier, replay, prefixes, models, gens, level_rule, keyfn=None, extra
         "assumptions": ["lock-step execution on a paused clock samples the schedule space (script order, capacities), it does not enumerate task interleavings",
                         "frame parsing / payload identification in the harness is trusted transcription"],
     }
+    if not finish:
+        return ev
     verdict.finish(ev)
 
 
